@@ -99,6 +99,8 @@ def paths_rules(rep, prog):
     S = Sym(prog, inline=lambda g: g.module.name == "sempler.utils" and g.qname != q)
     run_function(S, f)
     def is_frame_list(v):
+        if v[0] == "ext" and v[1] == "collections.deque" and len(v[2]) == 1 and not v[3]:
+            v = v[2][0]                     # deque([frame]): popleft / appendleft work on index 0, pop / append on the end, as for a list
         return v[0] == "list" and len(v[1]) == 1 and v[1][0][0] == "tuple" and len(v[1][0][1]) == 3
     loops = [li for li in S.loopinfo.values() if li["func"] == q and li["test"] is not None and any(is_frame_list(v) for v in li["init"].values())]
     if not loops:
@@ -111,6 +113,8 @@ def paths_rules(rep, prog):
         raise Inconclusive("semi_directed_paths: result list not identified", f.node)
     PATHS = outs[0]
     init = li["init"][STACK]
+    if init[0] == "ext" and init[1] == "collections.deque":
+        init = init[2][0]
     succ_want = lambda a, b: a != signs.Z
     ok = False
     why = "initial frame not recognised"
@@ -241,6 +245,11 @@ def separates_rules(rep, prog):
               "the disjointness guard is not `A&B or A&S or B&S non-empty`")
     calls = [c for c in S.select("call", qname=q) if c.target == U + "semi_directed_paths"]
     ok = bool(calls) and all(c.args == [("elem", ("param", "A")), ("elem", ("param", "B")), ("param", "G")] for c in calls)
+    # ... for *every* pair: two nested loops over A and B, or one over itertools.product(A, B) - not zip(A, B), which pairs them off
+    for c in calls:
+        iters = [S.loopinfo[l_]["iter"] for l_ in c.loops if l_ in S.loopinfo]
+        PA__, PB__ = ("param", "A"), ("param", "B")
+        ok = ok and (sorted(map(repr, iters)) == sorted(map(repr, [PA__, PB__])) or iters in ([("ext", "itertools.product", (PA__, PB__), ())], [("ext", "itertools.product", (PB__, PA__), ())]))
     rep.check("SEP.paths", ok, fwhere(f), "searches semi_directed_paths(a, b, G) for every a in A, b in B",
               "the path search is not over all (a in A, b in B) in G")
     rets = S.select("return", qname=q)
